@@ -63,7 +63,7 @@ def transform_case(draw):
         cols = {"mu0": draw(st.floats(0.005, 0.1)), "mu_slope": draw(st.floats(0.0, 3.0)), "za": draw(st.floats(-0.4, 0.2)), "zb": draw(st.floats(0.0, 0.6))}
     else:
         cols = {"mu": [draw(st.floats(0.005, 1.0)) for _ in range(n)], "z": [draw(st.floats(0.2, 3.0)) for _ in range(n)]}
-    return {"kind": "transform", "n": n, "grid": grid, "p0": p0, "p1": p1, "jit": jit, "family": family, "cols": cols, "container": draw(st.sampled_from(["ndarray", "series"]))}
+    return {"kind": "transform", "n": n, "grid": grid, "p0": p0, "p1": p1, "jit": jit, "family": family, "cols": cols, "container": draw(st.sampled_from(["ndarray", "series"])), "pressure_dtype": draw(st.sampled_from(["float64", "float64", "int64", "int32", "float32"]))}
 
 
 def strategy(tier):
@@ -101,9 +101,24 @@ def check_case(case) -> Result:
             n = len(p)
         else:
             p = case["p0"] + (case["p1"] - case["p0"]) * u
-        if not np.all(np.diff(p) > 0):
+        # rows closer than 1e-9 relative (an inserted row that coincides with an existing one) are merged: increments
+        # below the rounding of the running sum are not "a table with increasing pressure" in any meaningful sense
+        p = p[np.concatenate([[True], np.diff(p) > 1e-9 * p[1:]])]
+        n = len(p)
+        pdt = case.get("pressure_dtype", "float64")
+        res.labels["pressure_dtype"] = pdt
+        if pdt in ("int64", "int32"):
+            # whole-number pressures held in an integer column (a lab table read from a CSV)
+            p = np.unique(np.rint(p)).astype(pdt)
+            n = len(p)
+        elif pdt == "float32":
+            p = np.unique(p.astype(np.float32))
+            n = len(p)
+        if n < 2 or not np.all(np.diff(p.astype(float)) > 0):
             res.skipped = "degenerate pressure grid"
             return res
+        p_given = p
+        p = p.astype(float)
         c = case["cols"]
         if case["family"] != "smooth" and len(c["mu"]) != len(p):  # edited grids: resample the rough columns
             c = {"mu": list(np.resize(c["mu"], len(p))), "z": list(np.resize(c["z"], len(p)))}
@@ -113,11 +128,14 @@ def check_case(case) -> Result:
             z = 1 + c["za"] * x + c["zb"] * x**2
         else:
             mu, z = np.array(c["mu"]), np.array(c["z"])
-        args = (p, mu, z)
+        args = (p_given, mu, z)
         if case["container"] == "series":
             import pandas as pd
 
             args = tuple(pd.Series(a) for a in args)
+        elif case["container"] == "list":
+            args = tuple(a.tolist() for a in args)
+        res.labels["container"] = case["container"]
         m = np.asarray(lib("fluids.pseudopressure", F.pseudopressure, *args), float)
         if m.shape != p.shape:
             res.bad("C08/transform-shape", f"shape {m.shape} for {p.shape}")
@@ -127,7 +145,7 @@ def check_case(case) -> Result:
         if m[0] != 0.0:
             res.bad("C08/zero-at-reference", f"fluids.pseudopressure: value at the first pressure is {m[0]!r}")
         err = np.abs(m - want)
-        res.check("C08/transform-is-trapezoid-of-2p-over-muZ", float(np.max(err / np.maximum(np.abs(want), 1e-300))) if n > 1 else 0.0, 1e-12, f"fluids.pseudopressure vs trapezoid of 2p/(mu Z) on a {case['grid']} grid of {n} rows ({case['family']});")
+        res.check("C08/transform-is-trapezoid-of-2p-over-muZ", float(np.max(err / np.maximum(np.abs(want), 1e-300))) if n > 1 else 0.0, 1e-5 if pdt == "float32" else 1e-12, f"fluids.pseudopressure vs trapezoid of 2p/(mu Z) on a {case['grid']} grid of {n} rows ({case['family']});")
         if not np.all(np.diff(m) > 0):
             k = int(np.argmin(np.diff(m)))
             res.bad("C08/strictly-increasing", f"fluids.pseudopressure not increasing between rows {k},{k + 1}: {m[k]!r} -> {m[k + 1]!r} (positive table)")
